@@ -157,6 +157,8 @@ structure Shared where
   attempts : Nat := 0                     -- ReconnectState::attempts (state.rs:28): written only by `increment_attempts` / `mark_connected`
   lastConn : Nat := 0                     -- ReconnectState::last_connected (state.rs:31), see `mark`
   log : List REv := []                    -- ghost: every event so far
+  tlog : List (Nat × REv) := []           -- ghost: the same events, each with the instant (`now`) at which it was appended —
+                                          -- the `t=` the driver prints in front of every line (`tlog_is_what_the_driver_prints`)
   obs : List Nat := []                    -- observed choices attached to the current operation
   script : List Rdy := []                 -- inner service: scripted readiness answers not yet consumed (then: ready)
   recover : Nat := 0                      -- inner service: after a call, `poll_ready` is pending for this long (ms)
@@ -186,7 +188,8 @@ def mark (c : Nat) (x : Conn) (w : Shared) : Shared :=
   match x with
   | .connected => { w with conn := .connected, writer := some c, attempts := 0, lastConn := w.now - w.now }
   | x => { w with conn := x, writer := some c }
-def emit (evs : List REv) (w : Shared) : Shared := { w with log := w.log ++ evs }
+def emit (evs : List REv) (w : Shared) : Shared :=
+  { w with log := w.log ++ evs, tlog := w.tlog ++ evs.map fun e => (w.now, e) }
 
 def finish (c : Nat) (r : RRes) (st : Caller) (w : Shared) : Caller × Shared :=
   ({ st with phase := .done, result := some r }, emit [.result c r] w)
